@@ -304,6 +304,23 @@ Print Assumptions a_terminal_report_is_final_along_histories_of_the_source.
 Print Assumptions accepted_ids_are_fresh_and_consecutive_along_histories_of_the_source.
 Print Assumptions the_clock_never_runs_backwards_along_histories_of_the_source.
 
+(* ... C19: an order the source accepts is recorded - and rests - at the model's rounded price: on the grid, and for an off-grid limit
+   strictly less than a tick below (buy) / above (sell) what was submitted *)
+Theorem an_order_accepted_by_the_source_carries_the_rounded_price : forall m ag mk buy p v ttlv m' r,
+  0 <= m_time m -> (0 < m_tick m)%Q -> add_order_gen m ag mk buy (Some p) v ttlv None None = Ok (m', r) ->
+  exists o, r = ROrder o /\ price o = Some (round_price (m_tick m) buy p) /\ vol o = v /\ placed o = m_time m /\ oid o = m_next m /\
+            (exists k : Z, round_price (m_tick m) buy p == inject_Z k * m_tick m)%Q /\
+            (if buy then round_price (m_tick m) true p <= p /\ p - m_tick m < round_price (m_tick m) true p
+             else p <= round_price (m_tick m) false p /\ round_price (m_tick m) false p < p + m_tick m)%Q.
+Proof.
+  intros m ag mk buy p v ttlv m' r Ht Hk H. rewrite gen_add_order_is_add_order in H by exact Ht. unfold add_order in H.
+  destruct (m_time m <? 0); [discriminate|]. destruct (negb (mk =? m_id m)); [discriminate|].
+  inversion H; subst. eexists. split; [reflexivity|]. cbn [price vol placed oid]. repeat split; try reflexivity.
+  - apply round_on_grid. exact Hk.
+  - destruct buy; [apply buy_rounds_down|apply sell_rounds_up]; exact Hk.
+Qed.
+Print Assumptions an_order_accepted_by_the_source_carries_the_rounded_price.
+
 (* non-vacuity: the premises hold of a market after its first clock step, and a history with an order on each side, a round, a cancel of
    the rest and a clock step runs through the generated functions to a trade and a cancellation *)
 Example source_history_example :
